@@ -59,11 +59,21 @@ def cli_cell(item):
         args.append('rel.v2/case')
     elif cell['arg'] == 'absolute_plain':
         args.append(str(root / 'abs.d' / 'case'))
+    elif cell['arg'] == 'relative_tilde':
+        args.append('~case.out')
+    elif cell['arg'] == 'relative_link':
+        (root / 'kept').mkdir()
+        os.symlink(os.path.join('..', '..', 'kept', 'run_0001.out'), root / cell['dir'] / 'rel' / 'latest.out')
+        args.append('rel/latest.out')
     env = subprocess_env()
     env.pop('GEOPHIRES_X_VERIF', None)
     env['TMPDIR'] = str(root / 'inp')
     p = subprocess.run(args, cwd=str(root / cell['dir']), env=env, capture_output=True, text=True, timeout=2400)
     created = sorted(listing(root) - before)
+    link = root / cell['dir'] / 'rel' / 'latest.out'
+    if cell['arg'] == 'relative_link' and link.is_symlink() and link.exists():
+        # what was written through the link is one file, reached by the requested name
+        created = [c for c in created if root.joinpath(*c) == link or root.joinpath(*c).resolve() != link.resolve()]
     # rich / HTML side outputs are not part of the property: keep report and JSON candidates only
     created = [list(c) for c in created if c[-1].endswith(('.out', '.json')) or '.' not in c[-1]]
     out_file = next((root.joinpath(*c) for c in created if not c[-1].endswith('.json')), None)
@@ -183,6 +193,19 @@ def client_cell(item):
 
 MC_OUTPUTS = ['Average Net Electricity Production', 'Electricity breakeven price', 'Total capital costs', 'Average Direct-Use Heat Production',
               'Direct-Use heat breakeven price (LCOH)', 'Project NPV', 'Average Production Temperature', 'Total operating and maintenance costs']
+
+
+def own_value(text: str, name: str):
+    """The last plain number the input gives for `name` (None when it does not mention it or writes it with a unit)."""
+    got = None
+    for ln in text.splitlines():
+        parts = [x.strip() for x in ln.split(',')]
+        if len(parts) >= 2 and parts[0] == name:
+            try:
+                got = float(parts[1])
+            except ValueError:
+                got = None
+    return got
 
 
 def mc_tokens(report: str) -> list:
@@ -313,6 +336,8 @@ def run(tier: str) -> int:
                 continue
             if c['hist'] == 'warm' and (not ident.startswith('sparse') or c['dir'] != 'd1'):
                 continue        # a warmed-up process matters for inputs that lean on defaults; the others name their values
+            if c['arg'] in ('relative_tilde', 'relative_link') and (c['dir'] != 'd1' or ident.startswith(('sparse', 'explicit'))):
+                continue        # unusual requested names: what matters is the name, one start directory and the plain inputs do
             cell = {'entry': c['entry'], 'arg': c['arg'], 'dir': c['dir'], 'input': ident, 'hist': c['hist'], 'failing': ident in failing,
                     'expect_files': c['expect_files']}
             if c['entry'] == 'cli':
@@ -322,7 +347,9 @@ def run(tier: str) -> int:
             elif c['entry'] == 'direct' and c['hist'] == 'warm':
                 items_warm.append((cell, texts[ident], rich))
             elif c['entry'] == 'mc' and c['dir'] == 'd1' and c['input'] in ('ok1', 'fail_read') and (tier == 'thorough' or ident in ('ok0', 'failread0', 'ex:example1')):
-                items_mc.append((cell, texts[ident], 47.5 if not ident.startswith('ex:') else 55.0))
+                own = own_value(texts[ident], 'Production Flow Rate per Well')     # the degenerate sample restates the input's own figure
+                if own is not None:
+                    items_mc.append((cell, texts[ident], own))
     direct = {o['tag']: o for o in sim.run_many(direct_jobs, 'harness.c12:project', keep_report=True)}
     recs = (sim.call_in_pool('harness.c20:cli_cell', items_cli) + sim.call_in_pool('harness.c20:client_cell', items_client)
             + sim.call_in_pool('harness.c20:direct_warm_cell', items_warm))
@@ -335,7 +362,7 @@ def run(tier: str) -> int:
         if not counts.get(need):
             raise MachineryFailure(f'C20: {need} never exercised')
     res.exhaustive = False
-    res.cov['rule'] = ('every cell of Entry.tla (4 entries x 3 output arguments x 2 start directories x ok / fail-at-read / fail-at-calculate) '
+    res.cov['rule'] = ('every cell of Entry.tla (4 entries x 7 output arguments x 2 start directories x ok / fail-at-read / fail-at-calculate) '
                        'executed for each concrete input; inputs seeded (quick 2 families + example1, thorough 10 + 6 examples); distinct = cell x input')
     res.assumptions += ['HTML / rich side outputs are ignored', 'the Monte Carlo embedded run is compared through the output tokens the driver '
                         'extracts (it does not keep the report)', 'failing inputs fail while reading or calculating (a failing report writer is not covered)']
